@@ -97,6 +97,19 @@ CHECKS.update({
         note=MEM_NOTE),
 })
 
+CHECKS.update({
+    "C15": dict(
+        engine="E3 net + E4 enum", category="exploration", design_ref="DESIGN.md section 5 C15",
+        technique="bounded-exhaustive enumeration of object sizes x mailbox sizes x upload modes (expedited, normal, every segment-length pattern) and of the error replies (every abort code, emergency, foreign object, oversize), each executed by the real SDO code against an independent CoE server on the segment simulator",
+        text="Reads return exactly the object's bytes for every size/mailbox/mode combination enumerated; writes deliver exactly the value bytes with the right index, sub-index, size and complete-access flag; array helpers are consistent; aborts carry the device's code, emergencies are emergency errors, foreign responses are invalid-response errors, oversize normal/segmented objects are too-long; mailbox counters cycle 1..7.",
+        note=SIM_NOTE + " The CoE server (/verif/mc/src/coe.rs) is written from ETG.1000.6."),
+    "C16": dict(
+        engine="E3 net + E4 enum, two build flavours", category="exploration", design_ref="DESIGN.md section 5 C16",
+        technique="exhaustive enumeration of single-field perturbations (every truncation, length fields, every value of type/counter and command bytes, all CoE services, index/size boundaries) of every step of every SDO/SDO-info exchange plus endless-fragment scripts, executed by the real code against the scripted CoE server with a frame/poll/virtual-time horizon, with and without overflow checks",
+        text="Every scripted reply ends the request with a value or an error inside the horizon, without panic; every byte of a returned value occurs in what the device placed in its mailbox window; nothing accumulates beyond the fixed buffer.",
+        note=SIM_NOTE + " 'Whatever bytes' is decided for the structured alphabet only; out-of-bounds reads are observed indirectly through tagged/poisoned mailbox contents."),
+})
+
 NOT_YET = {
 }
 
